@@ -37,7 +37,7 @@ def cases(tier, seed):
     out = []
     reps = 30 if tier == "quick" else 200
     for rep in range(reps):
-        for name in zoo.GRAPHS:
+        for name in zoo.DETERMINISTIC:
             g = zoo.build(name, 0)
             for t in g["evals"] + ["derived:" + d for d in g["derived"]]:
                 mode = ["all", "one", "subset", "all", "subset"][rep % 5]
